@@ -259,7 +259,7 @@ def gen_cases(rec, rng, tier):
     for _ in range(2000 if thorough else 150):
         n = rng.randint(1, 7 if thorough else 6)
         k = rng.randint(0, 3)
-        R = fag.maybe_digits(rng, fag.random_nfa(rng, n, k, eps_density=rng.choice([0.0, 0.2, 0.6, 1.0]), names=rng.choice([None, fag.random_names(rng, n)])))
+        R = fag.maybe_digits(rng, fag.random_nfa(rng, n, k, eps_density=rng.choice([0.0, 0.2, 0.6, 1.0]), names=rng.choice([None, fag.random_names(rng, n, exotic=True)])))
         cont = rng.choice(conts)
         yield {'kind': 'nfa', 'cls': 'random_nfa/' + cont, 'ref': R, 'n': {0: 3, 1: 8, 2: 6 if thorough else 5, 3: 5 if thorough else 4}[k],
                'eps': rng.choice(['', '_', 'ε', 'e']), 'container': cont, 'sets': _sets(rng, R)}
